@@ -75,7 +75,7 @@ CLAIMS = {
               'piecewise-affine abstract interpretation + who-may-convert rule',
               'DESIGN.md 5 C13'),
     'C14': _c('Structural clauses only: accessor<->component, constructor roles, leap predicate over all residues mod 400, month-length '
-              'tables vs calendar, #NUM! guards, WEEKDAY numbering over 7x3. DAYS/DATEDIF/EDATE = calendar arithmetic for all dates NOT decided.',
+              'tables vs calendar, #NUM! guards, WEEKDAY numbering over 7x3, EDATE month arithmetic on 12x12 linear forms, DATEDIF y/m/ym component formulas, DAYS/DATEDIF(d) as the serial difference in order. Implementations through third-party date arithmetic NOT decided.',
               'finite-quotient evaluation + table agreement + guard dominance',
               'DESIGN.md 5 C14'),
     'C15': _c('Structural clauses only: no negative-zero slice, negative counts rejected, SUBSTITUTE unchanged-exit independent of the '
@@ -93,7 +93,7 @@ CLAIMS = {
               'guard dominance with interval facts + piecewise-affine abstract interpretation + table agreement across siblings',
               'DESIGN.md 5 C17'),
     'C18': _c('Structural clauses only: no wrap-around indexing (index facts), out-of-range is an error, whole row/column on 0/omitted, '
-              'MATCH exact scan first-hit and #N/A exits, wildcard roles. MATCH +-1 semantics NOT decided.',
+              'MATCH exact scan first-hit and #N/A exits, wildcard roles, MATCH +-1 on all 7 order types of x against three sorted symbolic items, text and fractional positions. Arrays longer than the instance shapes NOT decided.',
               'guard dominance with integer interval facts + path rules',
               'DESIGN.md 5 C18'),
     'C19': _c('Label regex language equals the label language (DFA over a 6-class alphabet with Python $ semantics), capture-group roles, '
